@@ -537,6 +537,7 @@ def pre_build(run):
     digest = int(hashlib.sha256("\n".join(rendered).encode()).hexdigest()[:15],
                  16)
     _STATE["digest"] = digest
+    _STATE["rendered"] = rendered
     ct.emit_v(os.path.join(common.COQ, "Gen", "TaskTraces.v"), rendered,
               digest)
     _STATE["prepared"] = True
@@ -558,11 +559,20 @@ def load_corpus_cases():
 # --------------------------------------------------------------------------
 # the check
 # --------------------------------------------------------------------------
-HEADER = ("From Coq Require Import ZArith List NArith.\nImport ListNotations.\n"
-          "From Verif Require Import Model.C10 Gen.TaskTraces.\n"
-          "Definition dflt_ : traced_case := "
-          "(Compress, 0%nat, [], [], []).\n"
-          "Definition tc_ (i : Z) := nth (Z.to_nat i) traces dflt_.\n")
+def header():
+    """Coq prelude of the evaluation files. The traces are the text that was
+    written to coq/Gen/TaskTraces.v by pre_build in this very run (inlined,
+    so that the evaluation does not depend on when the shared build gets to
+    compile the Gen file)."""
+    return ("From Coq Require Import ZArith List NArith.\n"
+            "Import ListNotations.\n"
+            "From Verif Require Import Model.C10.\n"
+            "Definition digest : Z := %d%%Z.\n"
+            "Definition traces : list traced_case := [\n%s\n].\n"
+            "Definition dflt_ : traced_case := "
+            "(Compress, 0%%nat, [], [], []).\n"
+            "Definition tc_ (i : Z) := nth (Z.to_nat i) traces dflt_.\n" % (
+                _STATE["digest"], ";\n".join(_STATE["rendered"])))
 
 
 def sample_ks(info, rng, thorough, budget):
@@ -656,14 +666,13 @@ def _run(run):
     ncases = len(CASES)
     # ---- 1. fault-free runs: protocol acceptance ------------------------
     out = common.coq_map(
-        run.scratch, "c10acc", HEADER,
+        run.scratch, "c10acc", header(),
         "(fun i : Z => digest :: check_case (tc_ i))",
         [common.zlit(i) for i in range(ncases)])
     for idx, (case, info, m) in enumerate(zip(CASES, INFO, out)):
         if m[0] != _STATE["digest"]:
-            raise common.ModelError("coq/Gen/TaskTraces.vo is stale (digest "
-                                    "mismatch): the build did not pick up "
-                                    "the regenerated traces")
+            raise common.ModelError("digest mismatch in the trace "
+                                    "evaluation file")
         nout = len(info["lay"]["outs"])
         ro = info["ref_obs"]
         impl = [1 if info["err"] is None else 0, -1, len(info["trace"])]
@@ -744,7 +753,7 @@ def _run(run):
         rendered.append("(%d, %d, %d, %d)" % (idx, nin, k,
                                               0 if kind == "kill" else 1))
     pred = common.coq_map(
-        run.scratch, "c10pred", HEADER,
+        run.scratch, "c10pred", header(),
         "(fun q : Z * Z * Z * Z => let '(i, nin, k, kind) := q in "
         "predict (tc_ i) (Z.to_nat nin) (Z.to_nat k) kind)", rendered,
         shard=250)
